@@ -57,7 +57,7 @@ def c15_native_case(args):
                 llsym.parse_module(open(ll).read(), mod)
                 mods.append(mod)
             for ii, inst in enumerate(instances(schema, tier)):
-                eng = Engine(timeout_ms=60000, max_paths=200)
+                eng = Engine(timeout_ms=240000, max_paths=200)
                 ms = []
                 for mod, s in zip(mods, (schema, twin)):
                     m = llsym.Machine(mod)
@@ -134,7 +134,7 @@ def c15_native_case(args):
                 assume.append(z3.ULE(v, schema.enum_max(t[1])))
             elif t[0] in ("f32", "f64"):
                 assume.append(z3.Not(z3.fpIsNaN(z3.fpBVToFP(v, z3.Float32() if K == 32 else z3.Float64()))))
-        eng = Engine(timeout_ms=60000, max_paths=200)
+        eng = Engine(timeout_ms=240000, max_paths=200)
         ms = []
         for mod in mods:
             m = llsym.Machine(mod)
